@@ -1,14 +1,19 @@
 (** C04 — index queries are complete: every added record that overlaps a
     query lies in a chunk returned by Chunks (BAI, tabix, CSI).
-    Statements only; proofs in Proofs/Index.v, Proofs/TabixIdx.v, Proofs/CsiIdx.v.
+    Statements only; proofs in Proofs/Index.v, TabixIdx.v, TabixLift.v,
+    CsiIdx.v, CsiLift.v, IndexPremises.v, CsiPremise.v, IndexFinal.v.
     Models: Model/Index.v, Model/Tabix.v, Model/Csi.v (validated against the
-    implementation on every run); specification vocabulary: Model/IndexSpec.v.
+    implementation on every run); specification vocabulary: Model/IndexSpec.v,
+    Model/TabixSpec.v.
 
-    Premises that other properties discharge appear as explicit hypotheses:
-    [bai_bin_containment] / [csi_bin_containment] (C16), [ix_strategy_covers s] (C17). *)
+    The bin-containment facts are C16's theorems (Proofs/Bins.v) transported
+    to these models; [ix_strategy_covers s] (every chunk of a list sorted by
+    begin lies inside one chunk of [s l]) is proved for the four provided
+    strategies in [provided_strategies_cover]. *)
 From Coq Require Import ZArith List Bool Lia.
 From Hts Require Import Base.Prim Generated Model.Index Model.Tabix Model.Csi Model.IndexSpec Model.TabixSpec
-  Proofs.Index Proofs.TabixIdx Proofs.CsiIdx.
+  Model.IndexIO Proofs.Index Proofs.TabixIdx Proofs.CsiIdx Proofs.TabixLift Proofs.CsiLift
+  Proofs.IndexPremises Proofs.CsiPremise Proofs.IndexIOFull Proofs.IndexFinal Proofs.TabixIO.
 Open Scope Z_scope.
 
 (** BAI: for every coordinate-sorted, in-range record list with a monotone
@@ -18,7 +23,6 @@ Open Scope Z_scope.
     chunk of the answer; an error or an empty answer implies that no added
     record overlaps the query. *)
 Theorem bai_complete :
-  bai_bin_containment ->
   forall rs, ix_wf rs -> ix_bins_ok rs ->
   exists ix, ix_fold_add ix_empty rs = Ok ix /\
     forall rid beg end_, 0 <= beg < end_ -> end_ <= 2 ^ 29 ->
@@ -26,56 +30,107 @@ Theorem bai_complete :
          exists cs, fst (ix_chunks ix rid beg end_) = Ok cs /\ ix_covers cs r) /\
       (fst (ix_chunks ix rid beg end_) = Ok [] \/ (exists e, fst (ix_chunks ix rid beg end_) = Err e) ->
          forall r, In r rs -> ~ ix_overlaps r rid beg end_).
-Proof. exact bai_complete_gen. Qed.
+Proof. exact (bai_complete_gen bai_bin_containment_holds). Qed.
 Print Assumptions bai_complete.
 
 (** The same in every state reachable from the built index by sorting
     (Chunks, WriteIndex), by earlier queries, and by MergeChunks with any
-    strategy that keeps every chunk of a sorted list inside one output chunk
-    (any number of times, in any order). *)
+    covering strategy, any number of times, in any order ([reach]). *)
 Theorem bai_complete_merged :
-  bai_bin_containment ->
   forall rs ix, ix_wf rs -> ix_bins_ok rs -> reach rs ix ->
   forall rid beg end_ r, 0 <= beg < end_ -> end_ <= 2 ^ 29 ->
     In r rs -> ix_overlaps r rid beg end_ ->
     exists cs, fst (ix_chunks ix rid beg end_) = Ok cs /\ ix_covers cs r.
-Proof. exact bai_complete_reach. Qed.
+Proof. exact (bai_complete_reach bai_bin_containment_holds). Qed.
 Print Assumptions bai_complete_merged.
+
+(** Identity, Adjacent, Squash and every Compressor are covering strategies
+    (so [reach] includes MergeChunks with each of them, and the public Chunks,
+    which applies Adjacent to the raw answer, keeps the coverage). *)
+Theorem strategies_cover :
+  ix_strategy_covers (fun l => l) /\ ix_strategy_covers ix_adjacent /\ ix_strategy_covers ix_squash /\
+  forall near, ix_strategy_covers (ix_compressor near).
+Proof. exact provided_strategies_cover. Qed.
+Print Assumptions strategies_cover.
+
+(** After WriteIndex and ReadIndex (byte level): the bytes written for the
+    built index are read back as [bai_reread ix], which still covers every
+    overlapping record.  [idx_ranges]: offsets and counters fit their fields. *)
+Theorem bai_complete_after_write_read :
+  forall rs ix, ix_wf rs -> ix_bins_ok rs -> ix_fold_add ix_empty rs = Ok ix -> idx_ranges ix ->
+    bai_read (fst (bai_write ix)) = Ok (Some (bai_reread ix)) /\
+    forall rid beg end_ r, 0 <= beg < end_ -> end_ <= 2 ^ 29 ->
+      In r rs -> ix_overlaps r rid beg end_ ->
+      exists cs, fst (ix_chunks (bai_reread ix) rid beg end_) = Ok cs /\ ix_covers cs r.
+Proof. exact bai_complete_after_io. Qed.
+Print Assumptions bai_complete_after_write_read.
 
 (** tabix: names get dense ids in order of first appearance ([tb_assign]); if
     the record list seen that way is well formed, adding every (name, record)
-    pair succeeds and every query by name covers each overlapping record.
-    PARTIAL: stated for the index as built (the states after MergeChunks and
-    after write/read are covered for the shared core by [bai_complete_merged],
-    but the lifting through the name table is not proved). *)
-Theorem tabix_complete_partial :
-  bai_bin_containment ->
+    pair succeeds, and in the built index and every state of its core
+    reachable by sort / queries / covering MergeChunks, every query by name
+    covers each overlapping record. *)
+Theorem tabix_complete :
   forall hdr nrs, ix_wf (tb_assign [] nrs) ->
-  exists t, tb_fold_add (tb_new hdr) nrs = Ok t /\
+  exists t, tb_fold_add (tb_new hdr) nrs = Ok t /\ reach (tb_assign [] nrs) (t_idx t) /\
+    forall ix', reach (tb_assign [] nrs) ix' ->
     forall beg end_, 0 <= beg < end_ -> end_ <= 2 ^ 29 ->
     forall nm r', In (nm, r') (combine (map fst nrs) (tb_assign [] nrs)) ->
       ix_overlaps r' (q_rid r') beg end_ ->
-      exists cs, fst (tb_chunks t nm beg end_) = Ok cs /\ ix_covers cs r'.
-Proof. exact tabix_complete_gen. Qed.
-Print Assumptions tabix_complete_partial.
+      exists cs, fst (tb_chunks (tb_with t ix') nm beg end_) = Ok cs /\ ix_covers cs r'.
+Proof. exact (tabix_complete_reach_gen bai_bin_containment_holds). Qed.
+Print Assumptions tabix_complete.
 
-(** CSI, for EVERY (minShift, depth) (premise [csi_bin_containment ms dp] = C16's
-    [csi_bin_in_bins] for that scheme), any auxiliary data and version: adding a
+(** tabix after WriteTo and ReadFrom (byte level; [tbx_fits]: header values,
+    names without NUL bytes and pairwise different, one name per reference,
+    numbers fit their fields): the bytes are read back as [tbx_reread t], which
+    writes to the same bytes, answers every query by name like [t], and covers
+    every overlapping record. *)
+Theorem tabix_complete_after_write_read :
+  forall hdr nrs, ix_wf (tb_assign [] nrs) ->
+  exists t, tb_fold_add (tb_new hdr) nrs = Ok t /\
+    (tbx_fits t ->
+     tbx_read (fst (tbx_write t)) = Ok (Some (tbx_reread t)) /\
+     fst (tbx_write (tbx_reread t)) = fst (tbx_write t) /\
+     (forall nm beg end_, fst (tb_chunks (tbx_reread t) nm beg end_) = fst (tb_chunks t nm beg end_)) /\
+     forall beg end_, 0 <= beg < end_ -> end_ <= 2 ^ 29 ->
+     forall nm r', In (nm, r') (combine (map fst nrs) (tb_assign [] nrs)) ->
+       ix_overlaps r' (q_rid r') beg end_ ->
+       exists cs, fst (tb_chunks (tbx_reread t) nm beg end_) = Ok cs /\ ix_covers cs r').
+Proof. exact tabix_complete_io_gen. Qed.
+Print Assumptions tabix_complete_after_write_read.
+
+(** CSI, for EVERY geometry whose bin numbers fit 32 bits (depth <= 10,
+    minShift + 3*depth <= 62), any auxiliary data and version: adding a
     well-formed list (coordinates up to the scheme's limit) succeeds; the chunk
     list Chunks hands to its merge step covers every overlapping record; an
-    empty answer implies no overlap.
-    PARTIAL: the states after MergeChunks and after write/read are not proved
-    for CSI (validated by the correspondence run and the oracle only). *)
-Theorem csi_complete_partial :
-  forall ms dp, csi_bin_containment ms dp ->
+    empty answer implies no overlap. *)
+Theorem csi_complete :
+  forall ms dp, 0 <= ms -> 0 <= dp <= 10 -> ms + 3 * dp <= 62 ->
   forall aux ver rs, ix_wf_from (cs_limit ms dp) (-1) 0 0 rs ->
   exists ix, cs_fold_add (mkCsi aux ver [] None ms dp false 0) rs = Ok ix /\
     forall rid beg end_, 0 <= beg < end_ -> end_ <= cs_limit ms dp + 2 ->
       (forall r, In r rs -> ix_overlaps r rid beg end_ ->
          ix_covers (fst (cs_chunks ix rid beg end_)) r) /\
       (fst (cs_chunks ix rid beg end_) = [] -> forall r, In r rs -> ~ ix_overlaps r rid beg end_).
-Proof. exact csi_complete_gen. Qed.
-Print Assumptions csi_complete_partial.
+Proof.
+  exact (fun ms dp H1 H2 H3 => csi_complete_gen ms dp (csi_bin_containment_holds ms dp H1 H2 H3)).
+Qed.
+Print Assumptions csi_complete.
+
+(** CSI in every state reachable by sort, earlier queries and covering
+    MergeChunks ([creach]).  PARTIAL only in that the state after
+    WriteTo/ReadFrom is not proved for CSI. *)
+Theorem csi_complete_merged_partial :
+  forall ms dp, 0 <= ms -> 0 <= dp <= 10 -> ms + 3 * dp <= 62 ->
+  forall aux ver rs ix, ix_wf_from (cs_limit ms dp) (-1) 0 0 rs -> creach ms dp aux ver rs ix ->
+  forall rid beg end_ r, 0 <= beg < end_ -> end_ <= cs_limit ms dp + 2 ->
+    In r rs -> ix_overlaps r rid beg end_ ->
+    ix_covers (fst (cs_chunks ix rid beg end_)) r.
+Proof.
+  exact (fun ms dp H1 H2 H3 => csi_complete_reach_gen ms dp (csi_bin_containment_holds ms dp H1 H2 H3)).
+Qed.
+Print Assumptions csi_complete_merged_partial.
 
 (** Non-vacuity for CSI (default geometry): the record that the unrepaired
     reg2bin filed under an unreachable bin. *)
